@@ -30,6 +30,8 @@ type c08Case struct {
 	RootLink bool         `json:"rootLink,omitempty"` // every root directory is a symbolic link to a directory kept beside the roots
 	Refusal  string       `json:"refusal,omitempty"`  // longroot: a root name of 256 bytes; targetIsFile: the target path is a regular file
 	Exts    []string      `json:"exts,omitempty"`
+	PreOps  []string      `json:"preOps,omitempty"` // root entry: earlier operations on the same node tree ...
+	Again   int           `json:"again,omitempty"`  // ... which then lacked its last Again nodes (added afterwards, before the verified call)
 }
 
 func init() { registerReplay("c08", c08Check) }
@@ -105,6 +107,11 @@ func c08Check(c c08Case) string {
 	} else {
 		cs.Root = &f[0].Name
 		cs.Prog = preorderProgram(model.Merge(f)[0])
+		cs.PreOps = c.PreOps
+		if c.Again > 0 && c.Again < len(cs.Prog) && len(c.PreOps) > 0 {
+			cs.MidProg = cs.Prog[len(cs.Prog)-c.Again:]
+			cs.Prog = cs.Prog[:len(cs.Prog)-c.Again]
+		}
 	}
 	cs.Opts.Strict = c.Strict
 	cs.Opts.TargetOpt = c.Target
@@ -386,6 +393,9 @@ func c08Record(col *collector, c c08Case) {
 	if c.Target != "" {
 		cl = append(cl, "target:"+c.Target)
 	}
+	if len(c.PreOps) > 0 && c.Again > 0 {
+		cl = append(cl, "verified-before-then-grown")
+	}
 	nontrivial := deep || c.History == "mkdir" && len(c.Exts) > 0 || len(c.AsFile) > 0
 	col.eval(nontrivial, hash64(fmt.Sprint(c)), cl...)
 	col.sample(func() any { return c })
@@ -410,6 +420,10 @@ func c08Gen() *rapid.Generator[c08Case] {
 		}
 		c := c08Case{Forest: f, Entry: entry, Strict: rapid.Bool().Draw(t, "strict"), Target: rapid.SampledFrom([]string{"", "rel", "slash", "short", "tilde"}).Draw(t, "target")}
 		c.Massive = rapid.IntRange(0, 4).Draw(t, "massive") == 0
+		if entry == "root" && rapid.IntRange(0, 2).Draw(t, "withPreOps") == 0 {
+			c.PreOps = rapid.SliceOfN(rapid.SampledFrom([]string{"verify", "verify", "verify-massive", "verify-noopt", "output", "dryrun", "walk", "mkdir-elsewhere"}), 1, 2).Draw(t, "preOps")
+			c.Again = rapid.IntRange(0, 3).Draw(t, "again")
+		}
 		if rapid.IntRange(0, 3).Draw(t, "hist") == 0 {
 			c.History = "mkdir"
 			c.Exts = genExts(f.Names()).Draw(t, "exts")
